@@ -28,80 +28,45 @@ theorem keys_adapt (inst : Tracker.InstDict) : Dict.keys (adapt inst) = Dict.key
   exact Dict.keys_map_snd inst (fun _ c => ({ classes := c } : NodeInfo))
 
 section
-variable (cfg : Config) (hc : cfg.cap = 0) (g : Graph)
-include hc
+variable (cfg : Config) (inst : Tracker.InstDict) (g : Graph)
 
-theorem cls_d0 (k : String) :
-    cls (adapt (Tracker.track cfg g)) k = if Spec.isSelected cfg g k then some (Spec.classesOf cfg g k) else none := by
-  rw [cls_adapt, Tracker.get?_track cfg hc]
+theorem shapesOf_d0 (k : String) : shapesOf (adapt inst) k = Spec.shapesOfValue inst k := by
+  unfold shapesOf Spec.shapesOfValue Spec.classesIn
+  rw [get?_adapt]
+  cases Dict.get? inst k <;> simp
 
-theorem shapesOf_d0 (k : String) : shapesOf (adapt (Tracker.track cfg g)) k = Spec.shapesOfValue cfg g k := by
-  unfold shapesOf Spec.shapesOfValue
-  have h := cls_d0 cfg hc g k
-  unfold cls at h
-  by_cases hs : Spec.isSelected cfg g k = true
-  · rw [if_pos hs] at h
-    cases hg : Dict.get? (adapt (Tracker.track cfg g)) k with
-    | none => rw [hg] at h; simp at h
-    | some ni =>
-      rw [hg] at h
-      simp only [Option.map_some, Option.some.injEq] at h
-      simp [h]
-  · rw [if_neg hs] at h
-    cases hg : Dict.get? (adapt (Tracker.track cfg g)) k with
-    | some ni => rw [hg] at h; simp at h
-    | none =>
-      have : Spec.classesOf cfg g k = [] := by
-        unfold Spec.classesOf
-        unfold Spec.isSelected at hs
-        simp only [List.any_eq_true, not_exists, not_and, Bool.not_eq_true] at hs
-        simp only [List.map_eq_nil_iff, List.filter_eq_nil_iff]
-        intro t ht
-        simpa using hs t ht
-      simp [this]
-
-theorem subjBumps_d0 (t : Triple) : subjBumps cfg (adapt (Tracker.track cfg g)) t = Spec.objTypes cfg g t.p t.o := by
+theorem subjBumps_d0 (t : Triple) : subjBumps cfg (adapt inst) t = Spec.objTypes cfg inst t.p t.o := by
   unfold subjBumps Spec.objTypes
-  rw [shapesOf_d0 cfg hc g]
+  rw [shapesOf_d0]
 
-theorem objBumps_d0 (t : Triple) : objBumps cfg (adapt (Tracker.track cfg g)) t = Spec.subjTypes cfg g t.p t.s := by
+theorem objBumps_d0 (t : Triple) : objBumps cfg (adapt inst) t = Spec.subjTypes cfg inst t.p t.s := by
   unfold objBumps Spec.subjTypes
-  rw [shapesOf_d0 cfg hc g]
+  rw [shapesOf_d0]
 
-theorem isInstance_d0 (t : Term) :
-    isInstance (adapt (Tracker.track cfg g)) t = (t.isNode && Spec.isSelected cfg g t.key) := by
+theorem isInstance_d0 (t : Term) : isInstance (adapt inst) t = (t.isNode && Dict.contains inst t.key) := by
   unfold isInstance Dict.contains
-  have h := cls_d0 cfg hc g t.key
-  unfold cls at h
-  by_cases hs : Spec.isSelected cfg g t.key = true
-  · rw [if_pos hs] at h
-    cases hg : Dict.get? (adapt (Tracker.track cfg g)) t.key with
-    | none => rw [hg] at h; simp at h
-    | some ni => simp [hs]
-  · rw [if_neg hs] at h
-    cases hg : Dict.get? (adapt (Tracker.track cfg g)) t.key with
-    | some ni => rw [hg] at h; simp at h
-    | none => simp [hs]
+  rw [get?_adapt]
+  cases Dict.get? inst t.key <;> simp
 
 /-- **pass 2, outgoing**: the number stored for a selected node is the declarative count -/
-theorem dcount_pass2 (n p ty : String) (hn : Spec.isSelected cfg g n = true) :
-    dcount (pass2 cfg (Tracker.track cfg g) g) n p ty = Spec.outCount cfg g n p ty := by
+theorem dcount_pass2 (n p ty : String) (hn : Dict.contains inst n = true) :
+    dcount (pass2 cfg inst g) n p ty = Spec.outCount cfg inst g n p ty := by
   unfold pass2
-  obtain ⟨_, hd, _⟩ := foldl_step_spec cfg (g.filter (passesFilter cfg)) (adapt (Tracker.track cfg g))
+  obtain ⟨_, hd, _⟩ := foldl_step_spec cfg (g.filter (passesFilter cfg)) (adapt inst)
   rw [hd]
-  have h0 : dcount (adapt (Tracker.track cfg g)) n p ty = 0 := by
+  have h0 : dcount (adapt inst) n p ty = 0 := by
     unfold dcount; rw [get?_adapt]
-    cases Dict.get? (Tracker.track cfg g) n <;> simp [fget, fget?]
+    cases Dict.get? inst n <;> simp [fget, fget?]
   rw [h0, Nat.zero_add]
-  have hR : Spec.outCount cfg g n p ty = ((g.filter (passesFilter cfg)).map fun t =>
-      if (t.s.isNode && t.s.key == n && t.p == p) = true then (Spec.objTypes cfg g p t.o).count ty else 0).sum := by
+  have hR : Spec.outCount cfg inst g n p ty = ((g.filter (passesFilter cfg)).map fun t =>
+      if (t.s.isNode && t.s.key == n && t.p == p) = true then (Spec.objTypes cfg inst p t.o).count ty else 0).sum := by
     unfold Spec.outCount Spec.visible; rw [sum_map_ite]
   rw [hR]
   congr 1
   apply List.map_congr_left
   intro t _
   unfold dContrib
-  rw [isInstance_d0 cfg hc g, subjBumps_d0 cfg hc g]
+  rw [isInstance_d0, subjBumps_d0]
   by_cases h1 : t.s.key = n
   · subst h1
     by_cases h2 : t.p = p
@@ -110,24 +75,24 @@ theorem dcount_pass2 (n p ty : String) (hn : Spec.isSelected cfg g n = true) :
   · simp [h1]
 
 /-- **pass 2, incoming** (with `inverse_paths`) -/
-theorem icount_pass2 (n p ty : String) (hn : Spec.isSelected cfg g n = true) (hinv : cfg.inverse = true) :
-    icount (pass2 cfg (Tracker.track cfg g) g) n p ty = Spec.inCount cfg g n p ty := by
+theorem icount_pass2 (n p ty : String) (hn : Dict.contains inst n = true) (hinv : cfg.inverse = true) :
+    icount (pass2 cfg inst g) n p ty = Spec.inCount cfg inst g n p ty := by
   unfold pass2
-  obtain ⟨_, _, hi⟩ := foldl_step_spec cfg (g.filter (passesFilter cfg)) (adapt (Tracker.track cfg g))
+  obtain ⟨_, _, hi⟩ := foldl_step_spec cfg (g.filter (passesFilter cfg)) (adapt inst)
   rw [hi]
-  have h0 : icount (adapt (Tracker.track cfg g)) n p ty = 0 := by
+  have h0 : icount (adapt inst) n p ty = 0 := by
     unfold icount; rw [get?_adapt]
-    cases Dict.get? (Tracker.track cfg g) n <;> simp [fget, fget?]
+    cases Dict.get? inst n <;> simp [fget, fget?]
   rw [h0, Nat.zero_add]
-  have hR : Spec.inCount cfg g n p ty = ((g.filter (passesFilter cfg)).map fun t =>
-      if (t.o.isNode && t.o.key == n && t.p == p) = true then (Spec.subjTypes cfg g p t.s).count ty else 0).sum := by
+  have hR : Spec.inCount cfg inst g n p ty = ((g.filter (passesFilter cfg)).map fun t =>
+      if (t.o.isNode && t.o.key == n && t.p == p) = true then (Spec.subjTypes cfg inst p t.s).count ty else 0).sum := by
     unfold Spec.inCount Spec.visible; rw [sum_map_ite]
   rw [hR]
   congr 1
   apply List.map_congr_left
   intro t _
   unfold iContrib
-  rw [isInstance_d0 cfg hc g, objBumps_d0 cfg hc g]
+  rw [isInstance_d0, objBumps_d0]
   by_cases h1 : t.o.key = n
   · subst h1
     by_cases h2 : t.p = p
@@ -137,15 +102,15 @@ theorem icount_pass2 (n p ty : String) (hn : Spec.isSelected cfg g n = true) (hi
 
 /-- without `inverse_paths` no incoming feature is ever recorded -/
 theorem icount_pass2_noinv (n p ty : String) (hinv : cfg.inverse = false) :
-    icount (pass2 cfg (Tracker.track cfg g) g) n p ty = 0 := by
+    icount (pass2 cfg inst g) n p ty = 0 := by
   unfold pass2
-  obtain ⟨_, _, hi⟩ := foldl_step_spec cfg (g.filter (passesFilter cfg)) (adapt (Tracker.track cfg g))
+  obtain ⟨_, _, hi⟩ := foldl_step_spec cfg (g.filter (passesFilter cfg)) (adapt inst)
   rw [hi]
-  have h0 : icount (adapt (Tracker.track cfg g)) n p ty = 0 := by
+  have h0 : icount (adapt inst) n p ty = 0 := by
     unfold icount; rw [get?_adapt]
-    cases Dict.get? (Tracker.track cfg g) n <;> simp [fget, fget?]
+    cases Dict.get? inst n <;> simp [fget, fget?]
   rw [h0, Nat.zero_add]
-  have : ∀ t, iContrib cfg (adapt (Tracker.track cfg g)) t n p ty = 0 := by
+  have : ∀ t, iContrib cfg (adapt inst) t n p ty = 0 := by
     intro t; unfold iContrib; simp [hinv]
   generalize g.filter (passesFilter cfg) = l
   induction l with
@@ -155,10 +120,9 @@ theorem icount_pass2_noinv (n p ty : String) (hinv : cfg.inverse = false) :
     rw [this x, Nat.zero_add]
     exact ih
 
-theorem cls_pass2 (k : String) :
-    cls (pass2 cfg (Tracker.track cfg g) g) k = if Spec.isSelected cfg g k then some (Spec.classesOf cfg g k) else none := by
+theorem cls_pass2 (k : String) : cls (pass2 cfg inst g) k = Dict.get? inst k := by
   unfold pass2
-  rw [(foldl_step_spec cfg _ _).1 k, cls_d0 cfg hc g]
+  rw [(foldl_step_spec cfg _ _).1 k, cls_adapt]
 
 end
 
